@@ -437,6 +437,8 @@ def C10(run):
     # parsing and linting: syntax-tree dumps, parse errors and lint reports of rendered programs and of faulty texts
     grammar(run, 'block', family='dettext')
     grammar(run, 'fault', family='dettext')
+    # lint reports with several diagnostics on one line (both passes reporting the same statement): order and content the same every time
+    grammar(run, 'lint', family='dettext')
     if run.tier == 'thorough':
         grammar(run, 'stmt', family='dettext')
 
@@ -543,6 +545,12 @@ def C11(run):
                 'must assign it. Expression admission (literal word / negative number first) is covered by the stmt family of C02. The '
                 'poetic-string programs are also run through the built binary (CliTrace.tla).')
     grammar(run, 'poetic', family='poetic')
+    # "a right-hand side that starts with a literal word or a negative number is instead an ordinary expression": every sequence of
+    # fragments after `foo is` / `rock foo like` / `foo says`; the recogniser model and the real parser must agree on the verdict
+    # (same tree, or rejected at the same line) - `foo is true love` is a syntax error, not the number 44
+    run.rule += ('; admission: all sequences of 4 (thorough: 5) fragments over `foo is`, `rock foo like`, `foo says`, literal words, `-`, a '
+                 'numeral, words, period, \'s, plus, line break get the verdict of the recogniser model Parser.tla (same tree / rejected at the same line)')
+    parser_soup(run, ['poetic4'] if run.tier == 'quick' else ['poetic5'])
     # the same poetic strings through the command-line tool: what `rrss exec FILE` prints is what the library prints (text taken
     # verbatim up to the end of the line, trailing blanks included)
     clitrace(run, (('poetic', 400),), only=lambda l: 'pstr' in l)
